@@ -88,6 +88,21 @@ fn sparse_ml<F: PrimeField>(toks: &[String], nv: Option<usize>) -> SparseMultili
     SparseMultilinearExtension::from_evaluations(nv, &pts)
 }
 
+fn g1_lin(a: Fr, x: &ark_bls12_381::G1Affine, b: Fr, y: &ark_bls12_381::G1Affine) -> ark_bls12_381::G1Affine {
+    use ark_ec::{AffineRepr, CurveGroup};
+    (x.into_group() * a + y.into_group() * b).into_affine()
+}
+fn marlin_comm_lin(a: Fr, c1: &ark_poly_commit::marlin_pc::Commitment<Bls12_381>, b: Fr, c2: &ark_poly_commit::marlin_pc::Commitment<Bls12_381>)
+    -> Option<ark_poly_commit::marlin_pc::Commitment<Bls12_381>> {
+    use ark_poly_commit::kzg10::Commitment as KC;
+    let shifted = match (&c1.shifted_comm, &c2.shifted_comm) {
+        (Some(x), Some(y)) => Some(KC(g1_lin(a, &x.0, b, &y.0))),
+        (None, None) => None,
+        _ => return None,
+    };
+    Some(ark_poly_commit::marlin_pc::Commitment { comm: KC(g1_lin(a, &c1.comm.0, b, &c2.comm.0)), shifted_comm: shifted })
+}
+
 pub struct MarlinA;
 impl Adapter for MarlinA {
     type F = Fr; type P = UniPoly; type PC = MarlinPC;
@@ -116,6 +131,8 @@ impl Adapter for MarlinA {
         out.obs1(&format!("{}.w", name), "G1", ser_hex(&pf.w));
         out.obs1(&format!("{}.rv", name), "F", pf.random_v.map(|x| f_to_str(&x)).unwrap_or("none".into()));
     }
+    fn comm_lin(a: Fr, c1: &Cm<Self>, b: Fr, c2: &Cm<Self>) -> Option<Cm<Self>> { marlin_comm_lin(a, c1, b, c2) }
+    fn comm_is_identity(c: &Cm<Self>) -> Option<bool> { use ark_ec::AffineRepr; Some(c.comm.0.is_zero() && c.shifted_comm.as_ref().map(|s| s.0.is_zero()).unwrap_or(true)) }
     fn mutate_comm(kind: &str, cm: &LabeledCommitment<Cm<Self>>, args: &[String]) -> Option<LabeledCommitment<Cm<Self>>> {
         let mut c = cm.commitment().clone();
         let mut b = cm.degree_bound();
@@ -162,6 +179,8 @@ impl Adapter for SonicA {
         out.obs1(&format!("{}.w", name), "G1", ser_hex(&pf.w));
         out.obs1(&format!("{}.rv", name), "F", pf.random_v.map(|x| f_to_str(&x)).unwrap_or("none".into()));
     }
+    fn comm_lin(a: Fr, c1: &Cm<Self>, b: Fr, c2: &Cm<Self>) -> Option<Cm<Self>> { Some(ark_poly_commit::kzg10::Commitment(g1_lin(a, &c1.0, b, &c2.0))) }
+    fn comm_is_identity(c: &Cm<Self>) -> Option<bool> { use ark_ec::AffineRepr; Some(c.0.is_zero()) }
     fn mutate_comm(kind: &str, cm: &LabeledCommitment<Cm<Self>>, args: &[String]) -> Option<LabeledCommitment<Cm<Self>>> {
         let b = cm.degree_bound();
         match kind {
@@ -173,11 +192,25 @@ impl Adapter for SonicA {
     }
 }
 
+fn ed_lin(a: EdFr, x: &EdwardsAffine, b: EdFr, y: &EdwardsAffine) -> EdwardsAffine {
+    use ark_ec::{AffineRepr, CurveGroup};
+    (x.into_group() * a + y.into_group() * b).into_affine()
+}
+
 pub struct IpaA;
 impl Adapter for IpaA {
     type F = EdFr; type P = DensePolynomial<EdFr>; type PC = IpaPC;
     fn make_poly(toks: &[String], _nv: Option<usize>) -> Self::P { uni_poly(toks) }
     fn make_point(toks: &[String]) -> EdFr { f_from_str(&toks[0]) }
+    fn comm_lin(a: EdFr, c1: &Cm<Self>, b: EdFr, c2: &Cm<Self>) -> Option<Cm<Self>> {
+        let shifted = match (&c1.shifted_comm, &c2.shifted_comm) {
+            (Some(x), Some(y)) => Some(ed_lin(a, x, b, y)),
+            (None, None) => None,
+            _ => return None,
+        };
+        Some(ark_poly_commit::ipa_pc::Commitment { comm: ed_lin(a, &c1.comm, b, &c2.comm), shifted_comm: shifted })
+    }
+    fn comm_is_identity(c: &Cm<Self>) -> Option<bool> { use ark_ec::AffineRepr; Some(c.comm.is_zero() && c.shifted_comm.map(|s| s.is_zero()).unwrap_or(true)) }
     fn mutate_comm(kind: &str, cm: &LabeledCommitment<Cm<Self>>, args: &[String]) -> Option<LabeledCommitment<Cm<Self>>> {
         let mut c = cm.commitment().clone();
         let mut b = cm.degree_bound();
@@ -263,6 +296,8 @@ impl Adapter for Pst13A {
         MVPoly::from_coefficients_vec(nv, terms)
     }
     fn make_point(toks: &[String]) -> Vec<Fr> { fs_from_strs(toks) }
+    fn comm_lin(a: Fr, c1: &Cm<Self>, b: Fr, c2: &Cm<Self>) -> Option<Cm<Self>> { marlin_comm_lin(a, c1, b, c2) }
+    fn comm_is_identity(c: &Cm<Self>) -> Option<bool> { use ark_ec::AffineRepr; Some(c.comm.0.is_zero()) }
     fn mutate_proof(kind: &str, pf: &Pf<Self>, args: &[String]) -> Option<Pf<Self>> {
         let mut p = pf.clone();
         let j: usize = args.get(0).and_then(|x| x.parse().ok()).unwrap_or(0);
@@ -286,6 +321,27 @@ impl Adapter for HyraxA {
         DenseMultilinearExtension::from_evaluations_vec(nv.expect("num_vars"), fs_from_strs(toks))
     }
     fn make_point(toks: &[String]) -> Vec<EdFr> { fs_from_strs(toks) }
+    fn always_blinded() -> bool { true }
+    /// C08: every row commitment is sum_j M[i][j]*com_key[j] + r_i*h with M[row][col] = evals[col*dim + row]
+    /// (naive double-and-add sums, row randomness read from the serialized commitment state)
+    fn reference_commitment(ck: &CK<Self>, p: &Self::P, cm: &Cm<Self>, st: &St<Self>) -> Option<bool> {
+        use ark_ec::{AffineRepr, CurveGroup};
+        use ark_poly::MultilinearExtension;
+        use ark_serialize::CanonicalDeserialize;
+        let bytes = ser_bytes(st, true);
+        let rands: Vec<EdFr> = Vec::<EdFr>::deserialize_compressed(&bytes[..]).ok()?;
+        let n = p.num_vars();
+        let dim = 1usize << (n / 2);
+        let ev = p.to_evaluations();
+        if cm.row_coms.len() != dim || rands.len() != dim { return Some(false); }
+        for row in 0..dim {
+            let mut acc = <EdwardsAffine as AffineRepr>::Group::default();
+            for col in 0..dim { acc += ck.com_key[col].into_group() * ev[col * dim + row]; }
+            acc += ck.h.into_group() * rands[row];
+            if acc.into_affine() != cm.row_coms[row] { return Some(false); }
+        }
+        Some(true)
+    }
     fn mutate_proof(kind: &str, pf: &Pf<Self>, args: &[String]) -> Option<Pf<Self>> {
         // Pf = Vec<HyraxProof>: one proof per polynomial opened at the point
         let mut v = pf.clone();
@@ -309,6 +365,40 @@ impl Adapter for HyraxA {
         }
         Some(v)
     }
+}
+
+/// C08: the Merkle root recomputed from the polynomial: row-major coefficient matrix, rows encoded with the
+/// scheme's public encoder, columns hashed with Blake2s over their canonical serialization, leaves padded to a
+/// power of two with the default leaf, ark-crypto-primitives' MerkleTree (identity leaf hash, SHA-256 inner hash)
+fn reference_root<L, P>(ck: &L::LinCodePCParams, coeffs: Vec<Fr>, cm: &Cm<LigeroUniA>) -> Option<bool>
+where
+    P: ark_poly::Polynomial<Fr>,
+    L: ark_poly_commit::linear_codes::LinearEncode<Fr, MTConfig, P, ColH<Fr>>,
+{
+    use ark_crypto_primitives::merkle_tree::MerkleTree;
+    use ark_poly_commit::linear_codes::{verif_hooks as lh, LinCodeParametersInfo};
+    let mut coeffs = coeffs;
+    if coeffs.is_empty() { coeffs.push(Fr::from(0u64)); }
+    let (n_rows, n_cols) = ck.compute_dimensions(coeffs.len());
+    coeffs.resize(n_rows * n_cols, Fr::from(0u64));
+    let rows: Vec<Vec<Fr>> = (0..n_rows).map(|r| coeffs[r * n_cols..(r + 1) * n_cols].to_vec()).collect();
+    let ext: Vec<Vec<Fr>> = rows.iter().map(|r| L::encode(r, ck).unwrap()).collect();
+    let n_ext = ext[0].len();
+    let mut leaves: Vec<Vec<u8>> = (0..n_ext)
+        .map(|j| {
+            let col: Vec<Fr> = (0..n_rows).map(|i| ext[i][j]).collect();
+            let mut bytes = Vec::new();
+            col.serialize_compressed(&mut bytes).unwrap();
+            let mut d = Blake2s256::new();
+            d.update(&bytes);
+            d.finalize().to_vec()
+        })
+        .collect();
+    leaves.resize(n_ext.next_power_of_two(), Vec::<u8>::default());
+    let tree = MerkleTree::<MTConfig>::new(&(), &(), leaves.iter()).ok()?;
+    let mut c2 = cm.clone();
+    let root = lh::commitment_root_mut(&mut c2).clone();
+    Some(tree.root() == root && lh::commitment_metadata(cm) == (n_rows, n_cols, n_ext))
 }
 
 /// mutations of linear-code proofs (Ligero / Brakedown share the proof type); through the verification hooks
@@ -355,6 +445,9 @@ impl Adapter for LigeroUniA {
     fn make_poly(toks: &[String], _nv: Option<usize>) -> UniPoly { uni_poly(toks) }
     fn make_point(toks: &[String]) -> Fr { f_from_str(&toks[0]) }
     fn mutate_proof(kind: &str, pf: &Pf<Self>, args: &[String]) -> Option<Pf<Self>> { mutate_lincode_proof(kind, pf, args) }
+    fn reference_commitment(ck: &CK<Self>, p: &UniPoly, cm: &Cm<Self>, _st: &St<Self>) -> Option<bool> {
+        reference_root::<UnivariateLigero<Fr, MTConfig, UniPoly, ColH<Fr>>, UniPoly>(ck, p.coeffs.clone(), cm)
+    }
 }
 pub struct LigeroMLA;
 impl Adapter for LigeroMLA {
@@ -362,6 +455,10 @@ impl Adapter for LigeroMLA {
     fn make_poly(toks: &[String], nv: Option<usize>) -> Self::P { sparse_ml(toks, nv) }
     fn make_point(toks: &[String]) -> Vec<Fr> { fs_from_strs(toks) }
     fn mutate_proof(kind: &str, pf: &Pf<Self>, args: &[String]) -> Option<Pf<Self>> { mutate_lincode_proof(kind, pf, args) }
+    fn reference_commitment(ck: &CK<Self>, p: &Self::P, cm: &Cm<Self>, _st: &St<Self>) -> Option<bool> {
+        use ark_poly::MultilinearExtension;
+        reference_root::<MultilinearLigero<Fr, MTConfig, SparseMultilinearExtension<Fr>, ColH<Fr>>, SparseMultilinearExtension<Fr>>(ck, p.to_evaluations(), cm)
+    }
 }
 pub struct BrakedownMLA;
 impl Adapter for BrakedownMLA {
@@ -369,6 +466,24 @@ impl Adapter for BrakedownMLA {
     fn make_poly(toks: &[String], nv: Option<usize>) -> Self::P { sparse_ml(toks, nv) }
     fn make_point(toks: &[String]) -> Vec<Fr> { fs_from_strs(toks) }
     fn mutate_proof(kind: &str, pf: &Pf<Self>, args: &[String]) -> Option<Pf<Self>> { mutate_lincode_proof(kind, pf, args) }
+    fn reference_commitment(ck: &CK<Self>, p: &Self::P, cm: &Cm<Self>, _st: &St<Self>) -> Option<bool> {
+        use ark_poly::MultilinearExtension;
+        reference_root::<MultilinearBrakedown<Fr, MTConfig, SparseMultilinearExtension<Fr>, ColH<Fr>>, SparseMultilinearExtension<Fr>>(ck, p.to_evaluations(), cm)
+    }
+}
+
+pub fn run_c08(c: &Case, out: &mut Out) {
+    match c.str1("scheme") {
+        "marlin" => crate::pc::run_c08::<MarlinA>(c, out),
+        "sonic" => crate::pc::run_c08::<SonicA>(c, out),
+        "ipa" => crate::pc::run_c08::<IpaA>(c, out),
+        "pst13" => crate::pc::run_c08::<Pst13A>(c, out),
+        "hyrax" => crate::pc::run_c08::<HyraxA>(c, out),
+        "ligero_uni" => crate::pc::run_c08::<LigeroUniA>(c, out),
+        "ligero_ml" => crate::pc::run_c08::<LigeroMLA>(c, out),
+        "brakedown_ml" => crate::pc::run_c08::<BrakedownMLA>(c, out),
+        s => panic!("unknown scheme {}", s),
+    }
 }
 
 pub fn run(c: &Case, out: &mut Out) {
